@@ -2,6 +2,7 @@
 EXTENDS Config, Json
 Replay == (phase = "built") => PrintT(<<"REPLAY", ToJson([ops |-> ops, comp |-> "C" \in layers, enc |-> "E" \in layers,
              level |-> level, nkeys |-> nkeys, build |-> BuildOutcome,
+             only |-> [r \in {0, 1} |-> ReadOutcomeOnly(r)],
              read |-> [none |-> ReadOutcome("none"), right |-> ReadOutcome("right"), wrong |-> ReadOutcome("wrong"),
                        wrong_right |-> ReadOutcome("wrong_right")]])>>)
 =============================================================================
